@@ -33,6 +33,7 @@ GRPC_REJECTS = ["g14", "g8", "s503", "h14", "g13", "s502", "h8"]
 UNIT = 8192
 BIG_UNIT = 160 * 1024
 PADS = ["rep", "rnd"]
+LATE_STALLS = ("stallbody", "stalltrail")
 
 
 def concretise(decs, proto, rnd):
@@ -40,6 +41,10 @@ def concretise(decs, proto, rnd):
     for d in decs:
         if d == "reject":
             out.append(rnd.choice(GRPC_REJECTS if proto == "grpc" else HTTP_REJECTS))
+        elif d == "stallbody":        # head sent, then nothing / a cut-short message
+            out.append(rnd.choice(["sth", "stm"]))
+        elif d == "stalltrail":       # head and message sent, no grpc-status trailer
+            out.append("stt")
         else:
             out.append(d)
     return out
@@ -53,6 +58,10 @@ def subsets_with(sigs, rnd):
 
 def build_scenario(n, lines_by_sig, proto, gzip, rnd, unit=UNIT, pad="rep", signals=None, short_flush_ms=None):
     """lines_by_sig: {signal: REPLAY line}; events of the signals are interleaved round-robin."""
+    # a reply that stalls after its head only fails a transport that reads beyond the head:
+    # those scripts run over gRPC (HTTP/1 judges by the status line alone)
+    if any(d in LATE_STALLS for ln in lines_by_sig.values() for d in ln["decs"]):
+        proto = "grpc"
     limit = None
     streams = {}
     for sig, ln in lines_by_sig.items():
@@ -301,7 +310,7 @@ def run(ctx):
     st = {"multi_request_batches": 0, "clean_flushes": 0, "faulty": 0, "real_limit_runs": 0,
           "max_request_bytes": 0, "flush_failed": 0, "client_side_failures": 0, "drift": 0,
           "decisions": {}, "resends": 0, "reconnects": 0, "large_gzip_requests": 0, "random_payload_runs": 0,
-          "short_flushes_timed_out": 0}
+          "short_flushes_timed_out": 0, "late_stalls": 0}
     for sc, sm in zip(scenarios, rep["summaries"]):
         seg = segs.get(sc["sc"], [])
         reqs = [e for e in seg if e["ev"] == "Req"]
@@ -323,6 +332,7 @@ def run(ctx):
             st["real_limit_runs"] += 1
         if sc.get("pad") == "rnd":
             st["random_payload_runs"] += 1
+        st["late_stalls"] += sum(1 for e in reqs if e["dec"] in LATE_STALLS)
         st["short_flushes_timed_out"] += sum(1 for e in seg if e["ev"] == "Flush" and e.get("short") and not e["ok"])
         # gzip bodies that stay large on the wire (hardly compressible payload)
         st["large_gzip_requests"] += sum(1 for e in reqs if e["ack"] and e.get("gz") and e.get("bytes", 0) > 64 * 1024)
@@ -397,7 +407,7 @@ def run(ctx):
     # vacuity guards (only meaningful when every trace was accepted)
     if rc is None and not ctx.violations:
         for k in ("multi_request_batches", "clean_flushes", "faulty", "real_limit_runs", "resends", "reconnects",
-                  "large_gzip_requests", "random_payload_runs", "short_flushes_timed_out"):
+                  "large_gzip_requests", "random_payload_runs", "short_flushes_timed_out", "late_stalls"):
             if not st[k]:
                 raise vlib.ToolError("vacuity: no real execution with %s" % k)
         if st["max_request_bytes"] < 1024 * 1024:
